@@ -241,6 +241,19 @@ impl BigU {
         }
         BigU(out).trim()
     }
+    pub fn mul_small(&self, m: u32) -> BigU {
+        let mut out = Vec::with_capacity(self.0.len() + 1);
+        let mut carry = 0u64;
+        for &x in &self.0 {
+            let y = x as u64 * m as u64 + carry;
+            out.push(y as u32);
+            carry = y >> 32;
+        }
+        if carry > 0 {
+            out.push(carry as u32);
+        }
+        BigU(out).trim()
+    }
     pub fn half(&self) -> BigU {
         let mut out = vec![0u32; self.0.len()];
         let mut carry = 0u32;
@@ -1755,6 +1768,12 @@ impl Exec {
                 match r {
                     Ok(s) => {
                         if let (Some(t), Some(x)) = (tt, self.e(f)) {
+                            if t.is_identity() && n >= t.n as usize && n - (t.n as usize) >= 100 && n <= 100_000 {
+                                let want = BigU::pow2(n - t.n as usize).mul_small(x.count_ones()).to_decimal();
+                                if s != want {
+                                    self.fail(&["C13"], format!("sat_count({:#x}, {}) = {}, expected {}", x, n, s, want));
+                                }
+                            }
                             if t.is_identity() && n >= t.n as usize && n - (t.n as usize) < 100 {
                                 let want = (x.count_ones() as u128) << (n - t.n as usize);
                                 if s != want.to_string() {
@@ -2509,7 +2528,12 @@ impl Exec {
 
     fn step_kcache(&mut self, toks: &[&str]) -> String {
         fn rf(raw: u32) -> Ref {
-            Ref::new(raw >> 1, raw & 1 == 1)
+            // raw 0 / 1: the public `Ref::ZERO` sentinel and its complement (no constructor makes them)
+            match raw {
+                0 => Ref::ZERO,
+                1 => -Ref::ZERO,
+                _ => Ref::new(raw >> 1, raw & 1 == 1),
+            }
         }
         // own Szudzik pairing (not the repository's): the slot the entry must land in
         fn pair(a: u64, b: u64) -> u64 {
@@ -2523,9 +2547,7 @@ impl Exec {
             let f: u32 = toks[2].parse().ok()?;
             let g: u32 = toks[3].parse().ok()?;
             let h: u32 = toks[4].parse().ok()?;
-            if f < 2 || g < 2 || (h < 2 && toks[1] == "ite") {
-                return None;
-            }
+
             Some(match toks[1] {
                 "ite" => ((0, f, g, h), OpKey::Ite(rf(f), rf(g), rf(h)), pair(pair(f as u64, g as u64), h as u64)),
                 "con" => ((1, f, g, 0), OpKey::Constrain(rf(f), rf(g)), pair(f as u64, g as u64)),
@@ -2863,6 +2885,34 @@ impl Exec {
                         _ => return None,
                     })
                 }
+                // printing with terms whose own text looks like syntax (a leading minus, operators,
+                // parentheses, nothing at all): both printers must still agree character by character
+                const WEIRD: [&str; 7] = ["-3", "~x", "(p & q)", "", "- 1", "a ? b : c", "0"];
+                #[derive(Clone)]
+                struct Txt(&'static str);
+                impl std::fmt::Display for Txt {
+                    fn fmt(&self, f: &mut std::fmt::Formatter<'_>) -> std::fmt::Result {
+                        write!(f, "{}", self.0)
+                    }
+                }
+                fn to_txt(e: &ExprBoxed<Z7>) -> ExprBoxed<Txt> {
+                    match e {
+                        ExprBoxed::Term(t) => ExprBoxed::Term(Txt(WEIRD[(t.0 % 7) as usize])),
+                        ExprBoxed::Not(a) => ExprBoxed::Not(Box::new(to_txt(a))),
+                        ExprBoxed::And(a, b) => ExprBoxed::And(Box::new(to_txt(a)), Box::new(to_txt(b))),
+                        ExprBoxed::Or(a, b) => ExprBoxed::Or(Box::new(to_txt(a)), Box::new(to_txt(b))),
+                        ExprBoxed::Xor(a, b) => ExprBoxed::Xor(Box::new(to_txt(a)), Box::new(to_txt(b))),
+                        ExprBoxed::Ite(a, b, c) => ExprBoxed::Ite(Box::new(to_txt(a)), Box::new(to_txt(b)), Box::new(to_txt(c))),
+                    }
+                }
+                let et = to_txt(&e);
+                let txt_tree = et.to_string();
+                let txt_arena = catch_unwind(AssertUnwindSafe(|| Arena::from_boxed(&et).to_string())).unwrap_or("panic".into());
+                if txt_tree != txt_arena {
+                    let cut = |x: &str| x.chars().take(120).collect::<String>();
+                    self.fail(&["C20"], format!("with terms printed as {:?} the arena prints '{}', the tree prints '{}'", WEIRD, cut(&txt_arena), cut(&txt_tree)));
+                }
+                let txt_digest = format!("{}/{}", fnv1a(&txt_tree), fnv1a(&txt_arena));
                 let arena_s = Arena::from_boxed(&to_sym(&e));
                 let ev_s = catch_unwind(AssertUnwindSafe(|| arena_s.eval())).ok().map(|x| x.0);
                 let direct_s = value_sym(&e);
@@ -2872,7 +2922,7 @@ impl Exec {
                 }
                 let sym_digest = ev_s.as_ref().map(|x| fnv1a(x).to_string()).unwrap_or("panic".into());
                 self.nontrivial.insert(fnv1a(&s0));
-                format!("{} | {} | {} | {} | {} | {} | {} | {}", s0, dbg, ts, show(ev), show(direct), back_s, show(back_v), sym_digest)
+                format!("{} | {} | {} | {} | {} | {} | {} | {} | {}", s0, dbg, ts, show(ev), show(direct), back_s, show(back_v), sym_digest, txt_digest)
             }
             "eda.signal" => {
                 let raw: u32 = toks[1].parse().unwrap();
